@@ -61,7 +61,8 @@ FILES = {
     'evalops.rs': dict(module='sass::value::kani_verif', src='rsass/src/sass/value.rs',
                        unit='U-evalops', functions=['sass::Value::do_evaluate (unary-operator match, extracted range)',
                                                     'sass::BinOp::eval (and/or branches, extracted range)',
-                                                    'sass::Value::do_evaluate (map-literal arm: duplicate-key check, extracted range)']),
+                                                    'sass::Value::do_evaluate (map-literal arm: duplicate-key check, extracted range)',
+                                                    'sass::Value::do_evaluate (inline if() function, extracted range)']),
     'strfns.rs': dict(module='sass::functions::string::kani_verif', src='rsass/src/sass/functions/string.rs',
                       unit='U-strfns', functions=['string.slice (index arithmetic: start, end, count; extracted ranges of the closure)',
                                                   'string.insert (index arithmetic; extracted range of the closure)']),
@@ -91,6 +92,10 @@ FILES = {
                                                          'ScopeRef::eval_body (@if arm; extracted range)',
                                                          'ScopeRef::eval_body (@while arm; extracted range)',
                                                          'Scope::set_variable (flag logic; extracted range)']),
+    'colorfns_rgb.rs': dict(module='sass::functions::color::rgb::kani_verif', src='rsass/src/sass/functions/color/rgb.rs',
+                            unit='U-colorfns', functions=['color.mix (complete closure body, extracted range)']),
+    'colorfns_other.rs': dict(module='sass::functions::color::other::kani_verif', src='rsass/src/sass/functions/color/other.rs',
+                              unit='U-colorfns', functions=['color.opacify / fade-in, transparentize / fade-out (complete closure bodies, extracted ranges)']),
     'comment.rs': dict(module='css::comment::kani_verif', src='rsass/src/css/comment.rs',
                        unit='U-comment', functions=['Comment::write']),
 }
@@ -130,7 +135,7 @@ OVERRIDES = [
     (r'^c28_index_of$', dict(functions=['index_of'])),
     (r'^c16_(plain|global|default)_', dict(functions=['Scope::set_variable (flag logic after the module case; extracted range, scope state replaced by a probe)'],
                                      bounded=None)),
-    (r'^c26_(slice_(whole|first|negative|empty|zero|far)|insert_(at|after|past|zero|minus|far|into)|index_first|length_counts)', dict(bounded='the concrete string "äbc" (and four other literals), seven concrete index pairs / indices',
+    (r'^c26_(slice_(whole|first|negative|empty|zero|far)|insert_(at|after|past|zero|minus|far|into)|index_first|length_counts|case_functions)', dict(bounded='the concrete string "äbc" (and four other literals), seven concrete index pairs / indices',
         functions=['string.slice / insert / index / length (complete closure bodies, extracted ranges)'])),
     (r'^c29_number_', dict(functions=['Number::ceil', 'Number::floor', 'Number::round', 'Number::abs', 'Number::trunc'])),
     (r'^c29_percentage', dict(bounded='four probe values')),
@@ -188,6 +193,10 @@ OVERRIDES = [
     # did not finish in 300 s on the unchanged tree (measured twice, -j 12/14):
     # thorough-tier attempts, reported but never counted as proved
     (r'^c12_color_hsla_cmp_antisymmetric$', dict(kind='attempt', tier='thorough', timeout=1800)),
+    (r'^c32_mix_with_itself_is_identity(_w30)?$', dict(kind='attempt', tier='thorough', timeout=2400)),  # measured: > 900 s
+    (r'^c32_mix_weight_is_share', dict(bounded='opaque rgb-form colors (alpha 1), all channel values')),
+    (r'^c32_(opacify|transparentize)', dict(bounded='rgb-form colors, all channel, alpha and amount values')),
+    (r'^c32_mix_with_itself_is_identity_w50', dict(bounded='weight 50% only (other weights: thorough-tier attempts), all channel values')),
     # the recursive selector structures (derived clone / == / drop through Box and Vec): > 15 min and > 5 GB each
     (r'^c22_(selector_|pseudo_is|pseudo_not|pseudo_other|compound_not_)', dict(kind='attempt', tier='thorough', timeout=2400)),
     (r'^c12_color_hwba_hsla_eq_symmetric_probe$', dict(bounded='two concrete probe pairs')),
@@ -230,6 +239,8 @@ FILE_ASSUMPTIONS = {
                       'FormalArgs\' two fields are parameters with the default type instantiated at u8; ArgsError and Invalid are local stand-ins with the constructors the ranges use'],
     'cssdata.rs': [SNIP + 'The (never constructed) error type of the result is ()'],
     'colorfns.rs': [DEG_MOD, SNIP + 'Argument fetches are replaced by parameters'],
+    'colorfns_rgb.rs': [DEG_MOD, SNIP + 'Argument fetches are replaced by parameters (the weight as the fraction the real check lets through)'],
+    'colorfns_other.rs': [SNIP + 'Argument fetches are replaced by parameters (the amount as the fraction the real check lets through)'],
     'colors.rs': [DEG_MOD], 'convert.rs': [DEG_MOD], 'hsla.rs': [DEG_MOD], 'hwba.rs': [DEG_MOD],
     'list.rs': ['std::fmt::format stubbed to return an empty String in c28_index_of (error TEXT unchecked, error PRESENCE checked)',
                 SNIP + 'join / append / set-nth / index are instantiated at element type u8 (get_list -> destructuring of the harness list type, Value::List -> its constructor, '
@@ -244,7 +255,7 @@ FILE_ASSUMPTIONS = {
 
 _h_re = re.compile(r'^\s*fn\s+((?:c\d\d|cover|canary)_[A-Za-z0-9_]+)\s*\(\s*\)', re.M)
 _per_style_re = re.compile(r'^per_style!\((\w+),\s*(\w+),\s*(\w+),\s*(\w+)\);', re.M)
-_target_re = re.compile(r'^(?:target|left|pair|per_tag|per_kind|and_or|map_lit|arm_kind|index_case|if_case|fn_if_case|while_case|tail_case|slice_at|insert_at|flags_case|unitless_case)!\((\w+),', re.M)
+_target_re = re.compile(r'^(?:target|left|pair|per_tag|per_kind|and_or|map_lit|arm_kind|index_case|if_case|fn_if_case|while_case|tail_case|slice_at|insert_at|flags_case|unitless_case|if_fn)!\((\w+),', re.M)
 _shape_re = re.compile(r'^shape!\((\w+),\s*(\w+),', re.M)
 _pair2_re = re.compile(r'^(?:arm_)?pair!\((c11_\w+),\s*(c11_\w+),', re.M)
 _mac_re = re.compile(r'^(?:per_\w+|gen_\w+)!\(([^;]*)\);', re.M)
